@@ -589,6 +589,30 @@ def r6_fresh_species(ctx):
         n += 1
         ctx.check(len(fresh) == len(rets) and len(rets) >= 2, rel, q, "every atom of a formula is a freshly built object (or a number)",
                   detail=[norm(r.value)[:60] for r in rets], expected=f"return {cls}(...) / float(...) on every path")
+    # module-level containers of the materials modules that a function writes to: state shared between formulas
+    MUT = {"append", "extend", "insert", "pop", "remove", "clear", "update", "setdefault", "popitem", "add", "discard", "sort"}
+    for rel in ctx.repo.all_py("src/scinumtools/materials"):
+        mod = ctx.repo.module(rel)
+        glob = {}
+        for st in mod.tree.body:
+            if isinstance(st, ast.Assign) and len(st.targets) == 1 and isinstance(st.targets[0], ast.Name):
+                v = st.value
+                if isinstance(v, (ast.List, ast.Dict, ast.Set)) or (isinstance(v, ast.Call) and dotted_name(v.func) in ("list", "dict", "set", "collections.defaultdict", "defaultdict")):
+                    glob[st.targets[0].id] = v
+        for g in glob:
+            writes = []
+            for f in [x for x in ast.walk(mod.tree) if isinstance(x, (ast.FunctionDef, ast.AsyncFunctionDef))]:
+                local = {a.arg for a in f.args.args} | {t.id for x in ast.walk(f) if isinstance(x, ast.Assign) for t in x.targets if isinstance(t, ast.Name)}
+                if g in local:
+                    continue
+                for x in ast.walk(f):
+                    if isinstance(x, ast.Subscript) and isinstance(x.ctx, (ast.Store, ast.Del)) and isinstance(x.value, ast.Name) and x.value.id == g:
+                        writes.append(f"{qualname(f)}: {norm(x)} = ...")
+                    if isinstance(x, ast.Call) and isinstance(x.func, ast.Attribute) and x.func.attr in MUT and isinstance(x.func.value, ast.Name) and x.func.value.id == g:
+                        writes.append(f"{qualname(f)}: {norm(x)[:60]}")
+            n += 1
+            ctx.check(not writes, rel, "<module>", f"module-level container {g} is not written by functions (a formula's result does not depend on earlier requests)",
+                      detail=writes or None)
     ctx.floor("class attributes / atom builders scanned", n, 8)
 
 
@@ -613,11 +637,72 @@ def _written_class_attrs(mod):
     return out
 
 
+def r7_species_token(ctx):
+    """Writer/reader agreement on what one species is: every text the Element reader accepts in full (symbol with an
+    isotope / charge suffix) must be matched as a single token by the rewriter's species pattern - otherwise no
+    implicit operator is inserted after it and the reader (unanchored re.match) silently drops the rest.  Decided by
+    exhaustive enumeration of suffixes over a small alphabet against the two regular-expression literals."""
+    import itertools
+    import re as _re2
+    import warnings
+    warnings.filterwarnings("ignore")
+    pre = ctx.fn(SS, "SubstanceSolver.preprocess")
+    el = ctx.fn(EL, "Element.__init__")
+    pat = None
+    for a in ast.walk(pre):
+        if isinstance(a, ast.Assign) and len(a.targets) == 1 and isinstance(a.targets[0], ast.Name) and a.targets[0].id == "pattern":
+            try:
+                pat = Evaluator(ctx.repo, ctx.repo.module(SS)).ev(a.value)
+            except AnalysisError:
+                pat = None
+    if pat is None:
+        subs = [c for c in ast.walk(pre) if isinstance(c, ast.Call) and dotted_name(c.func) == "re.sub" and len(c.args) >= 3 and isinstance(c.args[1], ast.Name)]
+        for c in subs:
+            try:
+                v = Evaluator(ctx.repo, ctx.repo.module(SS)).ev(c.args[0])
+                if isinstance(v, str) and "[A-Z]" in v and pat is None:
+                    pat = v
+            except AnalysisError:
+                pass
+    epat = None
+    for c in ast.walk(el):
+        if isinstance(c, ast.Call) and dotted_name(c.func) == "re.match" and c.args:
+            try:
+                v = Evaluator(ctx.repo, ctx.repo.module(EL)).ev(c.args[0])
+            except AnalysisError:
+                continue
+            if isinstance(v, str) and "[a-zA-Z]" in v:
+                epat = v
+    if not isinstance(pat, str) or not isinstance(epat, str):
+        ctx.unrecognised(SS, "SubstanceSolver.preprocess", "species token", "species pattern of the rewriter / element pattern of the reader not found as literals")
+        return
+    try:
+        tok, rd = _re2.compile(pat), _re2.compile(epat)
+    except _re2.error as e:
+        ctx.unrecognised(SS, "SubstanceSolver.preprocess", "species token", f"pattern does not compile: {e}")
+        return
+    bad, n = [], 0
+    alphabet = "019+-"
+    for sym in ("O", "Fe"):
+        for k in range(1, 6):
+            for inner in itertools.product(alphabet, repeat=k):
+                text = f"{sym}{{{''.join(inner)}}}"
+                if rd.fullmatch(text):
+                    n += 1
+                    if not tok.fullmatch(text):
+                        bad.append(text)
+    ctx.info["species texts enumerated"] = n
+    ctx.floor("species texts accepted by the reader", n, 500, file=EL)
+    ctx.check(not bad, SS, "SubstanceSolver.preprocess", "every species text the element reader accepts is one token of the formula rewriter",
+              detail=bad[:6] or f"{n} texts", expected="the rewriter's suffix class covers isotope numbers and multi-digit charges")
+
+
 RULES = [
     ("C10.R1", "rewriter/solver agreement: inserted symbols are attributes of configured operator classes; steps par, mul, add", r1_agreement),
     ("C10.R2", "every replacement callback branch re-emits the matched groups in order (omission only if proven empty, or whitespace replaced by an operator symbol)", r2_conservation),
     ("C10.R3", "count accumulation (+= / new with count), scaling, merging, re-normalisation on every path of add()", r3_accumulation),
     ("C10.R4", "per-species formulas N=A-Z, e=Z+q, mass; natural = abundance-weighted means; most abundant = aligned arg-max; suffix ladder", r4_species),
     ("C10.R5", "every m.group(k)/m.groups() refers to existing groups of its own pattern", r5_group_indices),
+    ("C10.R7", "writer/reader agreement on the species token: every symbol{isotope/charge} text the element reader accepts is a single token of the formula rewriter (exhaustive over suffixes up to 5 characters)", r7_species_token),
     ("C10.R6", "species objects are built fresh per parse; no shared mutable class-level state in the materials classes", r6_fresh_species),
 ]
